@@ -63,9 +63,10 @@ var clauseKW = map[string]bool{
 	"inline": true, "safety": true, "noreturn": true, "trusted": true, "pure": true,
 	"on_exit": true, "on_panic": true, "assume": true, "let": true, "hint": true,
 	"attr": true, "closure": true, "panics_only_if": true, "never_panics": true, "reach": true,
-	"ghost": true, "callee_may_panic": true, "opaque_effects": true,
+	"ghost": true, "callee_may_panic": true, "opaque_effects": true, "never_errors": true,
+	"before": true,
 }
-var topKW = map[string]bool{"func": true, "pred": true, "package": true, "axiom": true}
+var topKW = map[string]bool{"func": true, "pred": true, "package": true, "axiom": true, "lemma": true}
 
 // Load reads every zz_verif_*.go file in dir.
 func Load(dir, pkg string) (*DB, error) {
@@ -155,6 +156,28 @@ func (db *DB) loadFile(path string) error {
 			p.Body = e
 			db.Preds[p.Name] = p
 			cur = nil
+		case "lemma":
+			// lemma name(p1 type1, p2 type2, ...): a code-free obligation over the contracts' vocabulary
+			op := strings.Index(rest, "(")
+			cl := strings.LastIndex(rest, ")")
+			if op < 0 || cl < op {
+				return fail(fmt.Errorf("lemma name(params)"))
+			}
+			lname := "lemma:" + strings.TrimSpace(rest[:op])
+			cur = &FuncSpec{Pkg: db.Pkg, Name: lname, Flags: map[string]bool{"lemma": true}, Attrs: map[string]string{}, File: path, Line: it.line}
+			for _, pa := range strings.Split(rest[op+1:cl], ",") {
+				fs := strings.Fields(pa)
+				if len(fs) == 2 {
+					cur.Results = append(cur.Results, fs[0]+" "+fs[1])
+				} else if len(fs) != 0 {
+					return fail(fmt.Errorf("lemma parameter must be 'name type': %q", pa))
+				}
+			}
+			if _, dup := db.Funcs[lname]; dup {
+				return fail(fmt.Errorf("duplicate lemma %s", lname))
+			}
+			db.Funcs[lname] = cur
+			db.Order = append(db.Order, lname)
 		case "func":
 			name := rest
 			// drop optional parameter/result lists: keep up to the method name
@@ -172,7 +195,7 @@ func (db *DB) loadFile(path string) error {
 			}
 			c := &Clause{Kind: kw, Text: rest, File: path, Line: it.line}
 			switch kw {
-			case "inline", "safety", "noreturn", "trusted", "pure", "never_panics", "callee_may_panic", "opaque_effects":
+			case "inline", "safety", "noreturn", "trusted", "pure", "never_panics", "callee_may_panic", "opaque_effects", "never_errors":
 				cur.Flags[kw] = true
 				if kw == "trusted" {
 					db.Assume = append(db.Assume, cur.Name+": trusted contract")
@@ -222,6 +245,19 @@ func (db *DB) loadFile(path string) error {
 				}
 				c.Name = strings.TrimSpace(rest[:k])
 				e, err := ParseExpr(rest[k+1:])
+				if err != nil {
+					return fail(err)
+				}
+				c.Expr = e
+			case "before":
+				// before <callee>: expr   -- asserted in the caller's scope at every static call of callee
+				k := strings.Index(rest, ": ")
+				if k < 0 {
+					return fail(fmt.Errorf("before <callee>: expr"))
+				}
+				c.Name = strings.TrimSpace(rest[:k])
+				c.Text = strings.TrimSpace(rest[k+2:])
+				e, err := ParseExpr(c.Text)
 				if err != nil {
 					return fail(err)
 				}
